@@ -101,6 +101,32 @@ func validatorSources() []vsrc {
 		{"tag nonzero on interface{}", one("X", "x", "nonzero", ifc()), tvS(&gen.TV{Tree: gen.Uint(5)}), tvS(&gen.TV{Tree: gen.Uint(0)}), objOf("x", num(5)), objOf("x", num(0))},
 		{"tag required on interface{}", one("X", "x", "required", ifc()), tvS(&gen.TV{Tree: gen.Str("a")}), tvS(&gen.TV{Nil: true}), objOf("x", gen.Str("a")), objOf("x", gen.Str(""))},
 		{"tag min on interface{}", one("X", "x", "min=1", ifc()), tvS(&gen.TV{Tree: gen.Int(1)}), tvS(&gen.TV{Tree: gen.Int(-1)}), objOf("x", num(1)), objOf("x", num(0))},
+		// Validate() with pointer receiver on every underlying kind of a named type (the method is in the method set of
+		// *T only), and with value receiver on the kinds not covered above
+		{"Validate (pointer receiver) on named int", ptd("cat:c04_pi"), tvI(1), tvI(-1), num(1), num(-1)},
+		{"Validate (pointer receiver) on named uint", ptd("cat:c04_pu"), &gen.TV{U: 7}, &gen.TV{U: 101}, num(100), num(101)},
+		{"Validate (pointer receiver) on named float", ptd("cat:c04_pf"), &gen.TV{F: "0x1.8p+00"}, &gen.TV{F: "-0x1p-01"}, gen.Float(0.5), gen.Float(-0.5)},
+		{"Validate (pointer receiver) on named string", ptd("cat:c04_ps"), &gen.TV{S: "x"}, &gen.TV{S: "bad"}, gen.Str("x y"), gen.Str("a")},
+		{"Validate (pointer receiver) on named bool", ptd("cat:c04_pb"), &gen.TV{}, &gen.TV{B: true}, gen.Bool(false), gen.Bool(true)},
+		{"Validate (pointer receiver) on named int64 derived from Duration", ptd("cat:c04_pd"), tvI(5), tvI(-5), num(2), num(-2)},
+		{"Validate (pointer receiver) on named slice", ptd("cat:c04_pl"), tvS(tvI(1)), tvS(tvI(1), tvI(-1)), gen.List(num(1)), gen.List(num(1), num(-5))},
+		{"Validate (pointer receiver) on named map", ptd("cat:c04_pm"), tvMap("k", tvI(1)), tvMap("k", tvI(-1)), objOf("j", num(1)), objOf("j", num(-1))},
+		{"Validate (value receiver) on named uint", ptd("cat:c04_vu"), &gen.TV{U: 7}, &gen.TV{U: 101}, num(100), num(101)},
+		{"Validate (value receiver) on named float", ptd("cat:c04_vf"), &gen.TV{F: "0x1.8p+00"}, &gen.TV{F: "-0x1p-01"}, gen.Float(0.5), gen.Float(-0.5)},
+		{"Validate (value receiver) on named string", ptd("cat:c04_vt"), &gen.TV{S: "x"}, &gen.TV{S: "bad"}, gen.Str("x y"), gen.Str("a")},
+		{"Validate (value receiver) on named bool", ptd("cat:c04_vb"), &gen.TV{}, &gen.TV{B: true}, gen.Bool(false), gen.Bool(true)},
+		{"Validate (value receiver) on named map", ptd("cat:c04_vm"), tvMap("k", tvI(1)), tvMap("k", tvI(-1)), objOf("j", num(1)), objOf("j", num(-1))},
+		// InitDefaults (pointer receiver) on primitive kinds: invalid and valid defaults, either receiver of Validate()
+		{"InitDefaults of a named string sets a value failing Validate (pointer receiver)", ptd("cat:c04_is"), &gen.TV{S: "x"}, &gen.TV{S: "a"}, gen.Str("x"), gen.Str("a")},
+		{"InitDefaults of a named uint, Validate (value receiver)", ptd("cat:c04_iu"), &gen.TV{U: 1}, &gen.TV{U: 101}, num(1), num(101)},
+		{"InitDefaults of a named float sets a value failing Validate (pointer receiver)", ptd("cat:c04_if"), &gen.TV{F: "0x1p+00"}, &gen.TV{F: "-0x1p+00"}, gen.Float(1.5), gen.Float(-2.25)},
+		{"InitDefaults of a named bool sets a value failing Validate (value receiver)", ptd("cat:c04_ib"), &gen.TV{}, &gen.TV{B: true}, gen.Bool(false), gen.Bool(true)},
+		{"struct InitDefaults sets a value failing Validate (both pointer receivers)", ptd("cat:c04_ip"), tvS(tvI(1), &gen.TV{}), tvS(tvI(-5), &gen.TV{}), objOf("x", num(1)), objOf("s", gen.Str("a"))},
+		// collections of pointer-receiver validators installed by InitDefaults, one element invalid
+		{"struct InitDefaults fills a list with an element failing Validate (pointer receiver)", ptd("cat:c04_dq"), tvS(&gen.TV{Nil: true}, tvI(0)), nil, objOf("l", gen.List(num(1), num(1))), objOf("l", gen.List(num(1)))},
+		{"struct InitDefaults fills a map with an entry failing Validate (pointer receiver)", ptd("cat:c04_dr"), tvS(&gen.TV{Nil: true}, tvI(0)), nil, objOf("m", objOf("dflt", gen.Str("x"))), objOf("m", objOf("j", gen.Str("x")))},
+		{"struct InitDefaults fills an array with an element failing Validate (pointer receiver)", ptd("cat:c04_da"), tvS(tvS(&gen.TV{U: 1}, &gen.TV{U: 1}), tvI(0)), nil, objOf("a", gen.List(num(1), num(1))), objOf("n", num(1))},
+		{"map InitDefaults inserts an entry failing the element's Validate (pointer receiver)", ptd("cat:c04_mq"), tvMap("k", tvI(1)), tvMap("k", tvI(-1)), objOf("dflt", num(1)), objOf("j", num(1))},
 	}
 }
 
